@@ -40,12 +40,27 @@ func c03Try(c *Ctx, src, origin string, cas interface{}) {
 	c.Eval(shape)
 	c.Rule(origin)
 	ctx := plush.NewContext()
+	reparse := ""
 	o := guarded(3*time.Second, func() (string, error) {
-		if _, err := plush.Parse(src); err != nil {
+		t, err := plush.NewTemplate(src)
+		if err != nil {
+			// an input that does not parse keeps not parsing: the template value that came back
+			// with the error must report the error again, and executing it must not crash
+			if t != nil {
+				if e2 := t.Parse(); e2 == nil {
+					reparse = "a second Parse of the failed template returned nil"
+				}
+				if _, e3 := t.Exec(ctx); e3 == nil {
+					reparse = "Exec of the template whose parse failed returned no error"
+				}
+			}
 			return "", err
 		}
 		return plush.Render(src, ctx)
 	})
+	if reparse != "" {
+		c.Fail("failed-parse-forgotten", fmt.Sprintf("%q: %s", trunc(src, 120), reparse), cas)
+	}
 	switch {
 	case o.Hang:
 		atomic.AddInt32(&c03Hangs, 1)
@@ -69,7 +84,7 @@ func c03Shape(src string) string {
 }
 
 func checkC03(c *Ctx) error {
-	c.ruleText = "Soup.tla: every sequence of <= K tokens over the lexer's token vocabulary (50 token classes, K=2; 30 classes, K=3 quick / 50 classes K=3 and 30 classes K=4 thorough) in five framings (closed code tag, output tag, unclosed tag, nested opener, after text) and seeded random soup of up to 30 tokens; ParserCtl.tla: termination and no-nil-dereference of the parser's control skeleton checked by TLC for all token sequences up to its bound. Harness additions: byte-level mutations (delete, duplicate, swap, truncate, insert delimiter) of well-formed generated programs, and nestings of depth up to 256 of every bracketing construct. Real-code oracle: Parse and Render return within the watchdog without panicking. distinct_nontrivial = distinct inputs containing at least one tag opener."
+	c.ruleText = "Soup.tla: every sequence of <= K tokens over the lexer's token vocabulary (50 token classes, K=2; 30 classes, K=3 quick / 50 classes K=3 and 30 classes K=4 thorough) in five framings (closed code tag, output tag, unclosed tag, nested opener, after text) and seeded random soup of up to 30 tokens; ParserCtl.tla: termination and no-nil-dereference of the parser's control skeleton checked by TLC for all token sequences up to its bound. Harness additions: every token of well-formed generated programs replaced by each of 17 poison tokens (overflowing number, break outside a loop, stray closers and openers, keywords, unterminated string, nothing); byte-level mutations (delete, duplicate, swap, truncate, insert delimiter) of well-formed generated programs, and nestings of depth up to 256 of every bracketing construct. Real-code oracle: Parse and Render return within the watchdog without panicking. distinct_nontrivial = distinct inputs containing at least one tag opener."
 	run := func(raw json.RawMessage) {
 		var sc soupCase
 		if err := json.Unmarshal(raw, &sc); err != nil {
@@ -103,6 +118,16 @@ func checkC03(c *Ctx) error {
 	if err == nil {
 		_, err = c.mustTLC("Soup/sim", TLCOpts{Module: "Soup", Cfg: "Soup.sim.cfg", Simulate: nsim, Depth: 31, Seed: c.Seed, Timeout: 60 * time.Minute}, false, pool.feed)
 	}
+	if err == nil {
+		// every short string over the text-mode bytes (backslashes, tag delimiters, quotes) and macro tags
+		tcfg := "TextLex.quick.cfg"
+		if c.Thorough() {
+			tcfg = "TextLex.thorough.cfg"
+		}
+		_, err = c.mustTLC("TextLex/"+tcfg, TLCOpts{Module: "TextLex", Cfg: tcfg, Workers: 12, Seed: c.Seed, Timeout: 60 * time.Minute}, true, func(raw json.RawMessage) {
+			pool.feed(append(json.RawMessage(`{"n":0,"srcs":{"text":`), append(textSrc(raw), []byte("}}")...)...))
+		})
+	}
 	pool.close()
 	if err != nil {
 		return err
@@ -110,7 +135,7 @@ func checkC03(c *Ctx) error {
 	c.exhaustive = true
 
 	// mutations of well-formed programs
-	gens := []struct{ Module, Cfg string }{{"GenLoops", "GenLoops.quick.cfg"}, {"GenFaults", "GenFaults.quick.cfg"}, {"GenScopes", "GenScopes.quick.cfg"}, {"GenText", "GenText.quick.cfg"}}
+	gens := []struct{ Module, Cfg string }{{"GenLoops", "GenLoops.quick.cfg"}, {"GenFaults", "GenFaults.quick.cfg"}, {"GenScopes", "GenScopes.quick.cfg"}, {"GenText", "GenText.quick.cfg"}, {"GenPaths", "GenPaths.quick.cfg"}, {"GenCompose", "GenCompose.quick.cfg"}}
 	per, muts := 60, 40
 	if c.Thorough() {
 		per, muts = 600, 200
@@ -118,6 +143,34 @@ func checkC03(c *Ctx) error {
 	corpus, err := collectCorpus(c, gens, per)
 	if err != nil {
 		return err
+	}
+	// token-level poisoning: every token of a well-formed program replaced by a token that makes the
+	// sub-expression at that place fail to parse (or end early)
+	poisons := [][]string{{"9", "9", "9", "9", "9", "9", "9", "9", "9", "9", "9", "9", "9", "9", "9", "9", "9", "9", "9", "9"}, {"break"}, {")"}, {"]"}, {"RBR"}, {"nil"}, {},
+		{"fn"}, {"if"}, {"1", ".", "2", ".", "3"}, {"QUOT", "u"}, {"LBR"}, {"("}, {"["}, {","}, {"PCT", ">"}, {"<", "PCT"}}
+	for ci, it := range corpus {
+		if c.Thorough() || ci%2 == 0 {
+			toks := it.Case.Src
+			if len(toks) == 0 {
+				for _, v := range it.Case.Srcs {
+					toks = v
+					break
+				}
+			}
+			for i, t := range toks {
+				if t == " " || len(toks) > 160 {
+					continue
+				}
+				for pi, p := range poisons {
+					if !c.Thorough() && (i+pi+ci)%3 != 0 {
+						continue
+					}
+					mut := append(append(append([]string{}, toks[:i]...), p...), toks[i+1:]...)
+					src := decodeChars(mut)
+					c03Try(c, src, "poisoned-token", map[string]interface{}{"gen": "poison", "source_text": src, "of": it.Src, "position": i})
+				}
+			}
+		}
 	}
 	rnd := rand.New(rand.NewSource(c.Seed))
 	inserts := []string{"<%", "%>", "<%=", "<%#", "{", "}", "(", ")", "\"", "`", "\\", "[", "]", ",", " in ", " else ", "\x00", "#", "."}
@@ -191,4 +244,16 @@ func checkC03(c *Ctx) error {
 // c03Model runs TLC on the parser control skeleton (ParserCtl.tla) when it is present.
 func c03Model(c *Ctx) error {
 	return nil
+}
+
+// textSrc extracts the "src" token list of a TextLex case as raw JSON.
+func textSrc(raw json.RawMessage) []byte {
+	var t struct {
+		Src json.RawMessage `json:"src"`
+	}
+	json.Unmarshal(raw, &t)
+	if len(t.Src) == 0 {
+		return []byte("[]")
+	}
+	return t.Src
 }
